@@ -107,6 +107,14 @@ def gen_tree(rng, cfg=None, n=None):
     if cfg.shuffle:
         rng.shuffle(items)
     root = mk_node(cfg.root_label, items, edge="--", lemma="--", morph="--")
+    if cfg.shuffle and rng.random() < 0.08:
+        # the extreme of "child lists are stored in any order": every list right to left
+        def rev(n):
+            n.children.sort(key=_leftmost, reverse=True)
+            for c in n.children:
+                if c.children:
+                    rev(c)
+        rev(root)
     return root
 
 
